@@ -539,8 +539,8 @@ Lemma values_accepted : forall key brs v acts, In (DChain key brs) dispatch_step
   exists cfg s, In cfg witness_configs /\ dispatch (set_assoc key (OStr v) (fst cfg)) (snd cfg) = DOk s.
 Proof.
   intros key brs v acts Hs Hb. pose proof all_values_ok_true as H. unfold all_values_ok in H.
-  rewrite forallb_forall in H. specialize (H _ Hs). simpl in H.
-  rewrite forallb_forall in H. specialize (H _ Hb). simpl in H. unfold value_ok in H.
+  rewrite forallb_forall in H. specialize (H _ Hs). cbv beta iota in H.
+  rewrite forallb_forall in H. specialize (H _ Hb). cbn [fst snd] in H. unfold value_ok in H.
   apply orb_true_iff in H. destruct H as [H|H].
   - left. apply existsb_exists in H. destruct H as (a & Ha & He). destruct a; try discriminate. exact Ha.
   - right. apply existsb_exists in H. destruct H as (cfg & Hc & Ha). unfold accepted_on in Ha.
